@@ -38,6 +38,16 @@ CLAIMED = {
             'floats as reals; flat profile only (tilt/ripple normalisation is an approximation, outside the claim); math.isclose by '
             'its real definition',
             'DESIGN.md §2 C04'),
+    'C05': ('symx',
+            'bounded symbolic execution of the real Fiber/Roadm/Edfa propagation and of the Raman solver (coupling stubbed to zero) '
+            'with z3; models replayed on the float code',
+            'Fiber.propagate (Raman off) on concrete fibres with symbolic pads/connectors/powers and accumulated CD/PMD/latency: output '
+            '= input / (att_in+con_in+loss_coef*L+lumped+con_out), CD and latency additive, PMD/PDL in quadrature, all 6 orders of '
+            'Fiber-Roadm-Edfa give the same totals; Raman ON (perturbative order 1-2, numerical) with zero coupling and symbolic lumped '
+            'losses reduces to exp(-aL) * each lumped loss exactly once.',
+            'floats as reals; concrete fibre variants; Raman sub-claims about method agreement, orders 3-4, iterative co/counter solver '
+            'and pump gain are outside the technique (no bounded exact assertion); Fiber.cr and interp1d stubbed in H5c',
+            'DESIGN.md §2 C05'),
     'C14': ('symx',
             'bounded symbolic execution of the real spectrum-assignment code on bitmaps of symbolic cells with z3 (inductive step '
             'over request histories); models replayed on the real code',
